@@ -286,6 +286,10 @@ def processChain (rec : J) : Verdict := Id.run do
   -- an original map can only come from a reference in this file's own text
   if !origJ.isNull && ((rec.getD "src").strD.splitOn "sourceMappingURL=").length ≤ 1 then
     v := v.addCheck "C10:original-map-used-for-a-file-that-references-none" (jstr ((rec.getD "orig_comment").strD.take 80).toString)
+  -- a usable original map (the request says which kind of reference the file carries) must be found
+  let tags := (rec.getD "tags").arrD.map (·.strD)
+  if origJ.isNull && cfg.chainSourceMap && (tags.any fun t => t == "ref1" || t == "ref2" || t == "ref3" || t == "ref4" || t == "ref5") then
+    v := v.addCheck "C10:usable-original-map-not-loaded" (jstr (((rec.getD "src").strD.splitOn "sourceMappingURL=").getLast?.getD "" |>.take 60).toString)
   match splitTrailer content with
   | none => return v.addCheck "C10:no-decodable-inline-map-trailer" (jstr "")
   | some (body, finalMap) =>
